@@ -158,8 +158,8 @@ def is_placeholder(t):
 def g_dtcwt_forward(J, o_dim=2, ri_dim=-1, masks='symbolic', as_names=True, mode='symmetric', canary=False):
     """masks: 'symbolic' (skip_hps / include_scale lists of symbolic booleans), 'default' (plain False)"""
     oid = 'DTCWTForward[J=%d,o=%d,ri=%d,%s,%s]' % (J, o_dim, ri_dim, masks, 'names' if as_names else 'tuples')
-    sk = [z3.Bool('skip%d' % j) for j in range(J)] if masks == 'symbolic' else [False] * J
-    inc = [z3.Bool('inc%d' % j) for j in range(J)] if masks == 'symbolic' else [False] * J
+    sk = [z3.Bool('skip%d' % j) for j in range(J)] if masks in ('symbolic', 'symbolic-skip') else [False] * J
+    inc = [z3.Bool('inc%d' % j) for j in range(J)] if masks in ('symbolic', 'symbolic-include') else [False] * J
 
     def run():
         bi, qs = tables()
@@ -170,7 +170,7 @@ def g_dtcwt_forward(J, o_dim=2, ri_dim=-1, masks='symbolic', as_names=True, mode
             kw.update(biort='near_sym_a', qshift='qshift_a')
         else:
             kw.update(biort=(bi['h0o'], bi['h1o']), qshift=(qs['h0a'], qs['h0b'], qs['h1a'], qs['h1b']))
-        if masks == 'symbolic':
+        if masks.startswith('symbolic'):
             kw.update(skip_hps=list(sk), include_scale=list(inc))
         self = prims.instantiate(it, RepoClass(T2, 'DTCWTForward'), [], kw)
         x = CD.data_tensor('x', (Bn, C, H, W))
